@@ -430,8 +430,7 @@ def sem_tree(rel, env, prefer="r"):
             return relmodel.chain(a, b)
         if isinstance(o, Join):
             common = [t.qualified_name for t in o.common_columns]
-            triv = o.predicate.as_trivial() is True
-            pred = None if triv else (lambda v: exprsem.z3_of_lib(o.predicate, v))
+            pred = lambda v: exprsem.z3_of_lib(o.predicate, v)  # noqa: E731 - never the library's own folding (as_trivial)
             return relmodel.join(a, b, common, pred, prefer)
         raise TypeError(f"unexpected binary operation node {o!r}")
     if isinstance(rel, UnaryOperationRelation):
